@@ -11,4 +11,4 @@ mkdir -p "$DIR"
 rsync -a --delete --exclude target --exclude out "$ROOT/replay/" "$DIR/"
 sed -i "s|path = \"/repo\"|path = \"$REPO\"|" "$DIR/Cargo.toml"
 cd "$DIR"
-RUSTFLAGS="--cfg poster_verif" CARGO_NET_OFFLINE=true CARGO_TARGET_DIR="$WORK/replay-target-$KEY" exec cargo test --offline --test "$TEST" -- $FILTER --test-threads 4
+RUSTFLAGS="--cfg poster_verif" CARGO_NET_OFFLINE=true CARGO_TARGET_DIR="$WORK/replay-target-$KEY" exec cargo test --offline ${VERIF_REPLAY_RELEASE:+--release} --test "$TEST" -- $FILTER --test-threads 4
